@@ -276,6 +276,28 @@ class C04(core.PropBase):
                       "jobEnvironments: &j\n- name: E\n  variables: {A: b}\n  script: *j", "&root\nname: J\nsteps: *root", "&root\nenvironment: *root"]:
                 head = "specificationVersion: " + ("jobtemplate-2023-09" if kind == "job" else "environment-2023-09") + "\n"
                 yield {"kind": kind, "ytext": (t if t.startswith("&root") else head + t) + ("\nspecificationVersion: jobtemplate-2023-09" if t.startswith("&root") and kind == "job" else "\nspecificationVersion: environment-2023-09" if t.startswith("&root") else ""), "tag": "cyclic"}
+        # 3ab. values Python itself cannot print: an integer of more than 4300 digits (YAML reads one from a hex
+        #      literal), a list nested deeper than the interpreter recurses (JSON text holds one). Whatever describes
+        #      the document in an error message meets them. Kept as TEXT; placed at every position of a rich template.
+        hexn = "0x" + "f" * 4200
+        for kind in ("job", "env"):
+            doc = G.gen_env_template(rng, full=True) if kind == "env" else G.gen_job_template(rng, full=True)
+            paths = all_paths(doc)
+            must = [p for p in paths if p[-1] in ("specificationVersion", "type", "mode", "name", "control", "objectType", "dataFlow", "range", "min", "timeout")]
+            some = must + (paths if thorough else rng.sample(paths, min(len(paths), 30)))
+            for p in some:
+                d = copy.deepcopy(doc)
+                set_at(d, p, "HOLEHOLE")
+                ytext = yaml.safe_dump(d, allow_unicode=True, sort_keys=False, default_flow_style=False)
+                jtext = json.dumps(d)
+                if ytext.count("HOLEHOLE") != 1 or jtext.count('"HOLEHOLE"') != 1:
+                    continue
+                for rep in (hexn, "-" + hexn, "[" + hexn + "]", "{a: " + hexn + "}", "[[" + hexn + "]]", "{" + hexn + ": 1}"):
+                    if thorough or p in must or rng.random() < 0.4:
+                        yield {"kind": kind, "ytext": ytext.replace("HOLEHOLE", rep), "tag": "unprintable"}
+                for depth in (990, 1496, 2500):
+                    if thorough or p in must or rng.random() < 0.3:
+                        yield {"kind": kind, "jtext": jtext.replace('"HOLEHOLE"', "[" * depth + '"x"' + "]" * depth), "tag": "unprintable"}
         # 3b. long strings and long reference names at every string position of a rich template (lengths around
         #     the powers of two where a fixed-width counter, buffer or recursion budget would give out)
         for b in range(2 if thorough else 1):
@@ -338,16 +360,20 @@ class C04(core.PropBase):
                     except BaseException as e:  # noqa: BLE001
                         out.append("other:" + type(e).__name__)
             return ["docstr", sorted(set(o for o in out if o not in ("dict", "DVE")))]
-        if "ytext" in case:
+        if "ytext" in case or "jtext" in case:
             try:
-                doc = document_string_to_object(document=case["ytext"], document_type=DocumentType.YAML)
+                doc = (document_string_to_object(document=case["ytext"], document_type=DocumentType.YAML) if "ytext" in case
+                       else document_string_to_object(document=case["jtext"], document_type=DocumentType.JSON))
             except DecodeValidationError:
                 return ["decode", "DVE", "untouched"]
             except BaseException as e:  # noqa: BLE001
                 return ["decode", "other:docstr:" + type(e).__name__, "untouched"]
         else:
             doc = case["doc"]
-        before = copy.deepcopy(doc)
+        try:
+            before = copy.deepcopy(doc)
+        except RecursionError:
+            before = doc          # nested deeper than deepcopy recurses: the comparison below is skipped with it
         try:
             (decode_job_template if case["kind"] == "job" else decode_environment_template)(template=doc)
             v = "model"
@@ -365,8 +391,8 @@ class C04(core.PropBase):
         return res
 
     def requests(self, case):
-        if "ytext" in case:
-            return []          # no JSON form: totality only
+        if "ytext" in case or "jtext" in case:
+            return []          # no JSON form / outside the model's json type: totality only
         if case["kind"] == "docstr" or not jsonable(case["doc"]):
             return []
         if case.get("tag") == "long-string":
@@ -402,6 +428,8 @@ class C04(core.PropBase):
             lines = case["ytext"].split("\n")
             for i in range(len(lines)):
                 yield dict(case, ytext="\n".join(lines[:i] + lines[i + 1:]))
+            return
+        if "jtext" in case:
             return
         doc = case["doc"]
         for p in all_paths(doc):
